@@ -9,6 +9,8 @@ From mathcomp Require Import all_ssreflect all_algebra.
 From Pymoto Require Import Base.StarRing Model.LinMods Proofs.LinModsP.
 (* executable block checks used by the generated correspondence cases (kept in this file's dependency cone) *)
 From Pymoto Require Base.CQMat Model.LinModsExec.
+(* dtype tags of the same methods (plain Coq; evaluated by the generated cases as well) *)
+From Pymoto Require Import Model.LinDtype Proofs.LinDtypeP.
 Set Implicit Arguments.
 Unset Strict Implicit.
 Import GRing.Theory.
@@ -109,3 +111,79 @@ Theorem C07_condensed_reproduces_main :
   sc_Ared Dm Df solve_ff A * xm = bm.
 Proof. exact: condensed_reproduces_main. Qed.
 Print Assumptions C07_condensed_reproduces_main.
+
+(* ---------------------------------------------------------------------------------------------------------------
+   Dtypes (bool < int64 < float64 < complex128; rt = np.result_type).  The algebraic theorems above read
+   `buf = zeros; buf[idx] = v` as an exact embedding; numpy CASTS v to the dtype of buf (complex -> float only warns),
+   so that reading is right exactly when every stored value has a dtype <= the dtype of the buffer.  The buffer and
+   store dtypes are regenerated from linalg.py every run (bridge LinDtypeBridge).
+   sol_ok: the inner LinSolve answers with np.result_type(matrix, rhs, float) (contract, validated on every case). *)
+
+(* x and b have the numpy result type of ALL operands (matrix, loads, prescribed values) and float ... *)
+Theorem C07_soe_output_dtype :
+  forall dA dBf dXp : dtype,
+  soe_x_buf dA dBf dXp = rtl (dA :: dBf :: dXp :: DFloat :: nil) /\
+  soe_b_buf dA dBf dXp = rtl (dA :: dBf :: dXp :: DFloat :: nil).
+Proof. exact soe_out_dtype. Qed.
+Print Assumptions C07_soe_output_dtype.
+
+(* ... which is the LEAST dtype above every operand and float *)
+Theorem C07_soe_output_dtype_least :
+  forall dA dBf dXp : dtype,
+  let buf := soe_x_buf dA dBf dXp in
+  dle dA buf = true /\ dle dBf buf = true /\ dle dXp buf = true /\ dle DFloat buf = true /\
+  forall d, dle dA d = true -> dle dBf d = true -> dle dXp d = true -> dle DFloat d = true -> dle buf d = true.
+Proof. exact soe_out_dtype_lub. Qed.
+Print Assumptions C07_soe_output_dtype_least.
+
+Theorem C07_soe_output_complex_iff :
+  forall dA dBf dXp : dtype,
+  soe_x_buf dA dBf dXp = DComplex <-> dA = DComplex \/ dBf = DComplex \/ dXp = DComplex.
+Proof. exact soe_out_complex_iff. Qed.
+Print Assumptions C07_soe_output_complex_iff.
+
+(* every store of SystemOfEquations._response keeps its value: x[p] = xp, x[f] = xf, b[f] = bf, b[p] = Apf xf + App xp *)
+Theorem C07_soe_stores_lossless :
+  forall (sol : dtype -> dtype -> dtype) (dA dBf dXp : dtype), sol_ok sol ->
+  stores_lossless (soe_x_buf dA dBf dXp) (soe_x_stores sol dA dBf dXp) = true /\
+  stores_lossless (soe_b_buf dA dBf dXp) (soe_b_stores sol dA dBf dXp) = true.
+Proof. exact soe_stores_lossless. Qed.
+Print Assumptions C07_soe_stores_lossless.
+
+(* the computed free state and reactions have exactly the dtype of the buffers *)
+Theorem C07_soe_computed_dtypes :
+  forall (sol : dtype -> dtype -> dtype) (dA dBf dXp : dtype), sol_ok sol ->
+  soe_xf_dtype sol dA dBf dXp = soe_x_buf dA dBf dXp /\ soe_bp_dtype sol dA dBf dXp = soe_b_buf dA dBf dXp.
+Proof. exact soe_computed_dtypes. Qed.
+Print Assumptions C07_soe_computed_dtypes.
+
+(* none of the operands may be left out of the promotion (matrix: complex A with real data; loads / prescribed values:
+   fix 92bff31; float: integer data) *)
+Theorem C07_soe_buffer_needs_matrix_dtype :
+  exists dA dBf dXp, dle (soe_xf_dtype linsolve_dtype dA dBf dXp) (rt (rt dBf dXp) DFloat) = false.
+Proof. exact soe_buffer_needs_matrix_dtype. Qed.
+Print Assumptions C07_soe_buffer_needs_matrix_dtype.
+
+Theorem C07_soe_buffer_needs_operand_dtypes :
+  (exists dA dBf dXp, stores_lossless (rt dA DFloat) (soe_b_stores linsolve_dtype dA dBf dXp) = false) /\
+  (exists dA dBf dXp, stores_lossless (rt dA DFloat) (soe_x_stores linsolve_dtype dA dBf dXp) = false) /\
+  (exists dA dBf dXp, stores_lossless (rt (rt dA dBf) dXp) (soe_x_stores linsolve_dtype dA dBf dXp) = false).
+Proof. exact soe_buffer_needs_operand_dtypes. Qed.
+Print Assumptions C07_soe_buffer_needs_operand_dtypes.
+
+(* StaticCondensation / LinSolve: result type of the matrix (and the right-hand side) and float *)
+Theorem C07_schur_dtype :
+  forall (sol : dtype -> dtype -> dtype) (dA : dtype), sol_ok sol -> sc_out_dtype sol dA = rt dA DFloat.
+Proof. exact sc_out_dtype_eq. Qed.
+Print Assumptions C07_schur_dtype.
+
+Theorem C07_linsolve_dtype :
+  forall dM dr : dtype,
+  linsolve_dtype dM dr = rtl (dM :: dr :: DFloat :: nil) /\
+  (linsolve_dtype dM dr = DComplex <-> dM = DComplex \/ dr = DComplex).
+Proof. move=> dM dr; exact: (conj (linsolve_dtype_is_result_type dM dr) (linsolve_dtype_complex_iff dM dr)). Qed.
+Print Assumptions C07_linsolve_dtype.
+
+(* non-vacuity: the contract holds for the modelled solver stack *)
+Example C07_sol_ok_nonvacuous : sol_ok linsolve_dtype.
+Proof. by []. Qed.
